@@ -5,7 +5,8 @@
    the as-built alternative). *)
 EXTENDS GatewayHost, Json
 CONSTANTS Devs,      \* open deviations (as-built alternative printed for them)
-          Lite,      \* quick tier: in block "rest" UseSubdomains is on and port/wildcard vary together
+          Lite,      \* reduced block "rest": UseSubdomains on, port and wildcard host vary together
+          Rich,      \* thorough tier: block "ids" also varies port and wildcard gateway host
           Blocks     \* subset of {"ids", "rest"}:
                      \* "ids" : every identifier x namespace x host form x relevant configuration
                      \* "rest": representative identifiers x remainders x queries x port x wildcard host
@@ -65,8 +66,8 @@ Pick2 == /\ pc = 1 /\ pc' = 2 /\ Block' = Block
                paths \in (IF Block = "ids" THEN {"both", "ipfs"} ELSE {"both"}), nodl \in BOOLEAN,
                segs \in (IF Block = "ids" THEN {<<"a", "b c">>} ELSE SegsAll),
                q \in (IF Block = "ids" THEN {"q=1"} ELSE QAll),
-               port \in (IF Block = "ids" THEN {FALSE} ELSE BOOLEAN),
-               wild \in (IF Block = "ids" THEN {FALSE} ELSE BOOLEAN) :
+               port \in (IF Block = "ids" /\ ~Rich THEN {FALSE} ELSE BOOLEAN),
+               wild \in (IF Block = "ids" /\ ~Rich THEN {FALSE} ELSE BOOLEAN) :
               \* only the configuration fields the host form can depend on are varied
               /\ req.hf = "other" => sub /\ inl /\ paths = "both" /\ ~xfh
               /\ req.hf # "other" => ~nodl
